@@ -729,3 +729,80 @@ fn wrap_worker_services(services: Vec<(usize, usize, BoxedServerService)>) -> Ve
             services
         })
 }
+
+/// Verification hooks (compiled only with `--cfg actix_net_verif`): the worker side of a
+/// handle pair, held by a harness instead of a `ServerWorker`.
+#[cfg(actix_net_verif)]
+pub mod verif {
+    #![allow(missing_docs, private_interfaces, missing_debug_implementations)]
+
+    use super::*;
+    use crate::accept::verif::Wq;
+
+    /// Opaque wrapper of the accept-side handle.
+    pub struct AcceptHandle(pub(crate) WorkerHandleAccept);
+
+    /// A connection taken from the worker's queue, with the guard a service call would hold.
+    pub struct Picked {
+        pub token: usize,
+        pub io: MioStream,
+        pub guard: WorkerCounterGuard,
+    }
+
+    /// The worker-side ends of a handle pair: connection queue, counter, stop queue.
+    pub struct WorkerEnd {
+        pub idx: usize,
+        conn_rx: UnboundedReceiver<Conn>,
+        stop_rx: UnboundedReceiver<Stop>,
+        counter: WorkerCounter,
+        raw: Counter,
+    }
+
+    /// Create a handle pair exactly as `ServerWorker::start` does, without starting a worker.
+    pub fn link(idx: usize, wq: &Wq, limit: usize) -> (AcceptHandle, WorkerHandleServer, WorkerEnd) {
+        let (tx1, conn_rx) = unbounded_channel();
+        let (tx2, stop_rx) = unbounded_channel();
+        let counter = Counter::new(limit);
+        let (accept, server) = handle_pair(idx, tx1, tx2, counter.clone());
+        let end = WorkerEnd {
+            idx,
+            conn_rx,
+            stop_rx,
+            counter: WorkerCounter::new(idx, wq.0.clone(), counter.clone()),
+            raw: counter,
+        };
+        (AcceptHandle(accept), server, end)
+    }
+
+    impl WorkerEnd {
+        /// What `ServerWorker::poll` does for one queued connection: receive it and mint a guard.
+        pub fn try_pick(&mut self) -> Option<Picked> {
+            match self.conn_rx.try_recv() {
+                Ok(conn) => Some(Picked {
+                    token: conn.token,
+                    io: conn.io,
+                    guard: self.counter.guard(),
+                }),
+                Err(_) => None,
+            }
+        }
+
+        /// Number of connections waiting in the queue.
+        pub fn queued(&self) -> usize {
+            self.conn_rx.len()
+        }
+
+        /// Raw (biased) value of the shared counter.
+        pub fn raw_counter(&self) -> usize {
+            self.raw.counter.load(Ordering::SeqCst)
+        }
+
+        /// A worker dies: the connection queue's receiver is dropped first (field order of
+        /// `ServerWorker`); queued connections are dropped with it, without guards.
+        pub fn kill(self) {
+            let WorkerEnd { conn_rx, stop_rx, .. } = self;
+            drop(conn_rx);
+            drop(stop_rx);
+        }
+    }
+}
